@@ -75,16 +75,20 @@ func c14RefEqual(a, b c14NF, cs bool) bool {
 var c14Junk = []string{"", "-", "foo", "FOO", "#frag", "a#b", "A#c", "://x", "x://", "http://", "http:///p", "mailto:a@b", "/rel/path", "rel/../x", "http://h h/", "http://[::1]/x", "%zz", "http://example.com/%41", "http://example.com/a?b=%41", "\x00", "http://exa mple.com", "http://example.com/\u00e9", "HTTP://EXAMPLE.COM/\u00c9", "a://b", "A://B/"}
 
 func runC14(seed int64, n int, tier string, outDir string) (*Report, error) {
-	rep := &Report{Rule: "grid scheme(4) x host+port(6) x path(14) x query(13) x fragment(3) = 13104 presentations; native: IRI.Equals against an independent normal form (net/url + path.Clean + sorted query pairs) plus reflexivity/symmetry/transitivity on sampled triples, exhaustive over all ordered pairs in thorough; arbitrary non-URL strings for reflexivity/symmetry; Coq: sampled pairs through iri_equals_m, url_classify vs url.Parse, path_clean vs filepath.Clean, query_values vs URL.Query; non-trivial = the two presentations differ as strings and agree on host ignoring case; distinct by (a,b,cs)"}
+	rep := &Report{Rule: "grid scheme(4) x host+port(6) x path(14) x query(13) x fragment(3) = 13104 presentations; native: IRI.Equals against an independent normal form (net/url + path.Clean + sorted query pairs) plus reflexivity/symmetry/transitivity on sampled triples, exhaustive over all ordered pairs in thorough; arbitrary non-URL strings for reflexivity/symmetry; all ordered pairs and triples of a percent-escape grid (2 schemes x 10 paths x 7 queries) natively against the net/url normal form; Coq: sampled pairs through iri_equals_m - each also asked to lie in the domain of the theorems (iri_dom) and to be decided by equality of the normal forms (C14_char on the observed answer) -, the whole grid and the id pools through grid_in_dom / iri_dom, mixed-case-query pairs (outside the domain, model vs code only), a sample of the escape-grid pairs without escapes in the query through iri_equals_x / iri_dom_x / nf_x (the parser with percent-escapes in the path, Model/CollIri.v) and url_classify_x vs url.Parse on them, url_classify vs url.Parse, path_clean vs filepath.Clean, query_values vs URL.Query; non-trivial = the two presentations differ as strings and agree on host ignoring case; distinct by (a,b,cs)"}
 	g := NewGen(seed, "C14")
 	grid := c14Grid()
 	nf := make([]c14NF, len(grid))
 	for i, s := range grid {
 		nf[i] = c14Norm(s)
 	}
-	hdr := "From AP.Model Require Import Prelude Vocab Bytes Url IriEq.\n" +
+	// every pair of this file is drawn from the grid or the nested-URL list: besides "model = observed" the case
+	// asks that both IRIs are in the domain of the theorems (iri_dom, Model/IriNf.v) and that the observed answer
+	// is the equality of the normal forms (the statement of C14_char, evaluated on the real answer)
+	hdr := "From AP.Model Require Import Prelude Vocab Bytes Url IriEq IriNf.\n" +
 		"Definition ok (c : bytes * bytes * bool * bool) : bool := let '(a, b, cs, o) := c in\n" +
-		"  match iri_equals_m a b cs with Some r => Bool.eqb r o | None => false end.\n"
+		"  match iri_equals_m a b cs with Some r => Bool.eqb r o | None => false end\n" +
+		"  && iri_dom a && iri_dom b && Bool.eqb (nf_eqb (nf cs a) (nf cs b)) o.\n"
 	cw := NewCaseWriter(outDir, "Cases_C14_eq", hdr, "bytes * bytes * bool * bool")
 
 	check := func(i, j int, cs bool, idx int, toCoq bool) {
@@ -168,6 +172,11 @@ func runC14(seed int64, n int, tier string, outDir string) (*Report, error) {
 			}
 		}
 	}
+	// queries whose last value ends in "/" or is empty: what a string-level shortcut (trimming, cutting) on the
+	// whole IRI would confuse with a trailing slash of the path
+	for _, tail := range []string{"/r?x=", "/r?x=/", "/r?x=a", "/r?x=a/", "/r/?x=a", "/r?x=a&y=/", "/r?y=/&x=a", "/r?y=&x=a"} {
+		nested = append(nested, "https://a.example"+tail)
+	}
 	for ai, a := range nested {
 		for bi, b := range nested {
 			for _, cs := range []bool{false, true} {
@@ -178,12 +187,183 @@ func runC14(seed int64, n int, tier string, outDir string) (*Report, error) {
 				if obs != want {
 					rep.Violate(Violation{Op: "IRI.Equals", Input: []any{a, b, cs}, Expected: fmt.Sprint(want), Observed: fmt.Sprint(obs), Class: c14Class(a, b)})
 				}
-				if (ai+bi)%2 == 0 || ai == bi {
+				if (ai+bi)%2 == 0 || ai == bi || ai >= 8 || bi >= 8 {
 					cw.Add("("+hx([]byte(a))+", "+hx([]byte(b))+", "+cbool(cs)+", "+cbool(obs)+")", fmt.Sprintf("nested %d %d cs=%v", ai, bi, cs))
 				}
 			}
 		}
 	}
+	// the domain of the theorems: the whole grid (from the component lists above), the nested-URL list and the id
+	// pools other properties draw from satisfy iri_dom - evaluated inside Coq on the lists as they are now
+	hdrG := "From AP.Model Require Import Prelude Vocab Bytes Url IriEq IriNf.\n" +
+		"Definition ok (c : list bytes * list bytes * list bytes * list bytes * list bytes * list bytes * N) : bool :=\n" +
+		"  let '(sc, ho, pa, qu, fr, extra, n) := c in\n" +
+		"  grid_in_dom sc ho pa qu fr && forallb iri_dom extra && N.eqb (N.of_nat (length (grid_of sc ho pa qu fr))) n.\n"
+	cwG := NewCaseWriter(outDir, "Cases_C14_grid", hdrG, "list bytes * list bytes * list bytes * list bytes * list bytes * list bytes * N")
+	withMark := func(mark string, l []string) []string {
+		out := make([]string, len(l))
+		for i, s := range l {
+			out[i] = s
+			if s != "" && !strings.HasPrefix(s, mark) {
+				panic("component without its delimiter: " + s)
+			}
+		}
+		return out
+	}
+	extra := append([]string{}, nested...)
+	extra = append(extra, idPool...)
+	extra = append(extra, distinctPool...)
+	extra = append(extra, c10Pool...)
+	cwG.Add("("+c14CoqList(c14Schemes)+", "+c14CoqList(c14Hosts)+", "+c14CoqList(c14Paths)+", "+c14CoqList(withMark("?", c14Queries))+", "+
+		c14CoqList(withMark("#", c14Frags))+", "+c14CoqList(extra)+", "+fmt.Sprintf("%d%%N", len(grid))+")", "grid components, nested list, id pools")
+	rep.Count("coq:grid-in-domain")
+	if err := rep.AddCases(cwG); err != nil {
+		return nil, err
+	}
+
+	// outside the domain, reported: the one-case condition on queries is needed.  Across the two letter cases the
+	// relation is not transitive (C14_one_case_needed); the witness is replayed on the real code, which must agree
+	// with the model pair by pair (Cases_C14_out), and is counted, not judged.
+	hdrO := "From AP.Model Require Import Prelude Vocab Bytes Url IriEq IriNf.\n" +
+		"Definition ok (c : bytes * bytes * bool * bool) : bool := let '(a, b, cs, o) := c in\n" +
+		"  match iri_equals_m a b cs with Some r => Bool.eqb r o | None => false end.\n"
+	cwO := NewCaseWriter(outDir, "Cases_C14_out", hdrO, "bytes * bytes * bool * bool")
+	mixed := []string{"http://h/?X=1", "http://h/?x=1", "http://h/./?x=1", "http://h/?x=1&Y=2", "http://h/?Y=2&x=1", "http://h/?y=2&x=1", "http://h/?x=A", "http://h/./?x=a", "http://h/?x=a&x=A", "http://h/.?x=A&x=A"}
+	for _, a := range mixed {
+		for _, b := range mixed {
+			for _, cs := range []bool{false, true} {
+				obs := ap.IRI(a).Equals(ap.IRI(b), cs)
+				cwO.Add("("+hx([]byte(a))+", "+hx([]byte(b))+", "+cbool(cs)+", "+cbool(obs)+")", "mixed-case "+a+" "+b)
+			}
+		}
+	}
+	for _, cs := range []bool{false, true} {
+		if ap.IRI(mixed[0]).Equals(ap.IRI(mixed[1]), cs) && ap.IRI(mixed[1]).Equals(ap.IRI(mixed[2]), cs) && !ap.IRI(mixed[0]).Equals(ap.IRI(mixed[2]), cs) {
+			rep.Count("outside-domain:mixed-case-queries-not-transitive")
+		} else {
+			rep.Count("outside-domain:mixed-case-queries-transitive")
+		}
+	}
+	if err := rep.AddCases(cwO); err != nil {
+		return nil, err
+	}
+
+	// percent-escapes: outside the grammar of the plain parser model (url_classify answers UUnmodelled).
+	// net/url decodes the path and the query values; %2F / %2f decode to the same byte, so the hex case of an
+	// escape cannot separate what the fast path identifies.  All ordered pairs against the reference normal
+	// form (decoded path, decoded query pairs), all triples for transitivity, both flags.
+	var esc []string
+	for _, sch := range []string{"http", "HTTPS"} {
+		for _, pth := range []string{"/a%2Fb", "/a%2fb", "/a/b", "/%41", "/%61", "/a", "/a%2F", "/a/", "/a%2f..%2Fb", "/b"} {
+			for _, q := range []string{"", "?x=%2f", "?x=%2F", "?x=/", "?x=%6a", "?x=j", "?x=%4a"} {
+				esc = append(esc, sch+"://example.com"+pth+q)
+			}
+		}
+	}
+	escNF := make([]c14NF, len(esc))
+	for i, s := range esc {
+		escNF[i] = c14Norm(s)
+		if !escNF[i].ok {
+			panic("escape grid: not an absolute URL: " + s)
+		}
+	}
+	// escapes in the PATH are inside the grammar of the extended parser of Model/CollIri.v (url_classify_x; IRI.Equals
+	// over it is iri_equals_x): the entries without "%" in the query go through Coq - model = observed, both IRIs in
+	// the domain iri_dom_x, observed = equality of the normal forms nf_x (C14_char_x on the observed answer) - and the
+	// parser model is compared with net/url on each of them
+	hdrE := "From AP.Model Require Import Prelude Vocab Bytes Url IriEq IriNf CollIri IriNfX.\n" +
+		"Definition ok (c : bytes * bytes * bool * bool) : bool := let '(a, b, cs, o) := c in\n" +
+		"  match iri_equals_x a b cs with Some r => Bool.eqb r o | None => false end\n" +
+		"  && iri_dom_x a && iri_dom_x b && Bool.eqb (nf_eqb (nf_x cs a) (nf_x cs b)) o.\n"
+	cwE := NewCaseWriter(outDir, "Cases_C14_esc", hdrE, "bytes * bytes * bool * bool")
+	hdrEL := "From AP.Model Require Import Prelude Vocab Bytes Url IriEq IriNf CollIri IriNfX.\n" +
+		"Definition ok (c : bytes * (bytes * bytes * bytes * bytes * bytes) * bytes * list (bytes * list bytes)) : bool :=\n" +
+		"  let '(s, (sc, h, p, q, f), cleaned, qv) := c in\n" +
+		"  match url_classify_x s with\n" +
+		"  | UValid u => bytes_eqb (u_scheme u) sc && bytes_eqb (u_host u) h && bytes_eqb (u_path u) p && bytes_eqb (u_query u) q && bytes_eqb (u_frag u) f\n" +
+		"      && bytes_eqb (clean_url_path path_clean (u_path u)) cleaned\n" +
+		"      && list_eqb (pair_eqb bytes_eqb (list_eqb bytes_eqb)) (query_values (u_query u)) qv\n" +
+		"  | _ => false end.\n"
+	cwEL := NewCaseWriter(outDir, "Cases_C14_esclib", hdrEL, "bytes * (bytes * bytes * bytes * bytes * bytes) * bytes * list (bytes * list bytes)")
+	var escCoq []int
+	for i, s := range esc {
+		if q := strings.IndexByte(s, '?'); q >= 0 && strings.Contains(s[q:], "%") {
+			continue
+		}
+		escCoq = append(escCoq, i)
+		u, _ := url.Parse(s)
+		var qv []string
+		for _, piece := range strings.Split(u.RawQuery, "&") {
+			if piece == "" {
+				continue
+			}
+			k, _, _ := strings.Cut(piece, "=")
+			vs := u.Query()[k]
+			parts := make([]string, len(vs))
+			for i2, v := range vs {
+				parts[i2] = hx([]byte(v))
+			}
+			qv = append(qv, "("+hx([]byte(k))+", ["+strings.Join(parts, "; ")+"])")
+		}
+		pth := u.Path
+		if pth == "" {
+			pth = "/"
+		}
+		cwEL.Add("("+hx([]byte(s))+", ("+hx([]byte(u.Scheme))+", "+hx([]byte(u.Host))+", "+hx([]byte(u.Path))+", "+hx([]byte(u.RawQuery))+", "+hx([]byte(u.Fragment))+"), "+
+			hx([]byte(filepathClean(pth)))+", ["+strings.Join(qv, "; ")+"])", s)
+	}
+	for x, i := range escCoq {
+		for y, j := range escCoq {
+			if (x*7+y*3)%6 != 0 && x != y {
+				continue
+			}
+			cs := (x+y)%2 == 0
+			obs := ap.IRI(esc[i]).Equals(ap.IRI(esc[j]), cs)
+			cwE.Add("("+hx([]byte(esc[i]))+", "+hx([]byte(esc[j]))+", "+cbool(cs)+", "+cbool(obs)+")", fmt.Sprintf("esc %d %d cs=%v", i, j, cs))
+			if obs {
+				rep.Count("coq-escape-pair:equal")
+			} else {
+				rep.Count("coq-escape-pair:unequal")
+			}
+		}
+	}
+	if err := rep.AddCases(cwE); err != nil {
+		return nil, err
+	}
+	if err := rep.AddCases(cwEL); err != nil {
+		return nil, err
+	}
+	for _, cs := range []bool{false, true} {
+		eq := make([][]bool, len(esc))
+		for i, a := range esc {
+			eq[i] = make([]bool, len(esc))
+			for j, b := range esc {
+				obs := ap.IRI(a).Equals(ap.IRI(b), cs)
+				eq[i][j] = obs
+				rep.Evaluations++
+				rep.Count("escape-pair")
+				if want := c14RefEqual(escNF[i], escNF[j], cs); obs != want {
+					rep.Violate(Violation{Op: "IRI.Equals (percent-escapes)", Input: []any{a, b, cs}, Expected: fmt.Sprint(want), Observed: fmt.Sprint(obs), Class: c14Class(a, b)})
+				}
+			}
+		}
+		for i := range esc {
+			for j := range esc {
+				if !eq[i][j] {
+					continue
+				}
+				if !eq[j][i] {
+					rep.Violate(Violation{Op: "IRI.Equals symmetry (percent-escapes)", Input: []any{esc[i], esc[j], cs}, Expected: "symmetric", Observed: "asymmetric"})
+				}
+				for k := range esc {
+					if eq[j][k] && !eq[i][k] {
+						rep.Violate(Violation{Op: "IRI.Equals transitivity (percent-escapes)", Input: []any{esc[i], esc[j], esc[k], cs}, Expected: "a=b, b=c => a=c", Observed: "a!=c"})
+					}
+				}
+			}
+		}
+	}
+
 	// arbitrary strings: reflexive and symmetric; IRIs.Contains agrees with Equals
 	junk := append([]string{}, c14Junk...)
 	for i := 0; i < 40; i++ {
@@ -293,6 +473,14 @@ func runC14(seed int64, n int, tier string, outDir string) (*Report, error) {
 		return nil, err
 	}
 	return rep, nil
+}
+
+func c14CoqList(l []string) string {
+	parts := make([]string, len(l))
+	for i, s := range l {
+		parts[i] = hx([]byte(s))
+	}
+	return "[" + strings.Join(parts, "; ") + "]"
 }
 
 // classifier of known-finding classes by failing mechanism (mirrors Model/Findings where defined)
